@@ -75,7 +75,8 @@ def _drain(ctx, s, m, tag):
   if m.endless:
     got = s.take(5); want = m.take(5)
   else:
-    got = list(s); want = list(m.items); m.items = []
+    want = list(m.items); m.items = []
+    got = s.take(len(want) + 2)          # bounded: a stream that became endless must not hang the check
   ctx.prove(_same_list(got, want), "final-contents-equal-list-model", "%s got %d items, model %d" % (tag, len(got), len(want)))
   ctx.observe("drain", len(got))
 
@@ -101,6 +102,16 @@ def _h_history(ctx, cfg):
     models = [Model(list(src) * 12, endless=True)]
   elif cfg.get("ctor") == "gen":
     pool = [Stream(e for e in src)]; models = [Model(src)]
+  elif cfg.get("ctor") == "repeat":          # finite itertools.repeat: all items equal, only counts observable
+    one = ctx.elem("r")
+    pool = [Stream(it.repeat(one, L))]; models = [Model([one] * L)]; src = [one]
+  elif cfg.get("ctor") == "chain":           # several iterables chained by the constructor
+    pool = [Stream(list(src[:1]), iter(list(src[1:])))]; models = [Model(src)]
+  elif cfg.get("ctor") == "scalar":          # non-iterable: endless repeat of the object
+    one = ctx.elem("r")
+    pool = [Stream(one)]; models = [Model([one] * 24, endless=True)]; src = [one]
+  elif cfg.get("ctor") == "islice":
+    pool = [Stream(it.islice(iter(list(src) + list(src)), L))]; models = [Model(src)]
   else:
     pool = [Stream(list(src))]; models = [Model(src)]
   nmax = L + 2
@@ -307,6 +318,9 @@ def tasks(tier, seed):
                                 "nvals2": small, "nvals3": [1, L + 1], "ops2": OBS, "ops3": OBS[:5],
                                 "specials1": [2.5], "specials2": [INF], "specials3": [NAN]}))
   for first in OPS:
+    for ctor in ("repeat", "chain", "scalar", "islice"):
+      T.append(("h_history", {"L": 3, "steps": 2, "pool": 3, "first": first, "ctor": ctor,
+                              "nvals1": [-1, 0, 1, 2, 4], "specials1": [2.5, INF, NAN]}))
     T.append(("h_history", {"L": 2, "steps": 2, "pool": 3, "first": first, "periodic": True}))
     T.append(("h_history", {"L": 3, "steps": 2, "pool": 3, "first": first, "ctor": "gen", "reverse_drain": True}))
   for L in ((1, 2) if not big else (0, 1, 2)):
